@@ -103,6 +103,18 @@ def gen_optstr(rng):
 
     if rng.chance(0.03):
         s = b''                 # the bare header
+    elif rng.chance(0.04):
+        # a key that occurs twice, one occurrence outside the grammar
+        bad = rng.choice([b'+', b'b=c', b'\xff', b'', b' x', b'a b', b'#'])
+        good = rng.choice([b'1', b'v', b'/p'])
+        k = rng.choice([b'a', b'key', b'x-y'])
+        pair = [k + b'=' + bad, k + b'=' + good]
+
+        if rng.chance(0.3):
+            pair.reverse()
+
+        s = b' ' + b', '.join(pair[:1] + ([b'z=9'] if rng.chance(0.3) else [])
+                              + pair[1:])
 
     return s
 
